@@ -624,7 +624,10 @@ size_t varintBitmapEncode(const varintBitmap *vb, uint8_t *buffer) {
 }
 
 varintBitmap *varintBitmapDecode(const uint8_t *buffer, size_t len) {
-    (void)len; /* Unused, but kept for API consistency */
+    /* Header: 1 byte type + 4 bytes cardinality */
+    if (len < 1 + sizeof(uint32_t)) {
+        return NULL; /* Truncated */
+    }
 
     varintBitmap *vb = malloc(sizeof(varintBitmap));
     if (!vb) {
@@ -637,6 +640,38 @@ varintBitmap *varintBitmapDecode(const uint8_t *buffer, size_t len) {
     /* Read cardinality */
     memcpy(&vb->cardinality, buffer, sizeof(uint32_t));
     buffer += sizeof(uint32_t);
+    len -= 1 + sizeof(uint32_t);
+
+    /* Validate the declared sizes against what the caller actually gave us
+     * before allocating or copying anything */
+    bool valid = vb->cardinality <= VARINT_BITMAP_MAX_VALUE;
+    if (valid) {
+        switch (vb->type) {
+        case VARINT_BITMAP_ARRAY:
+            valid = vb->cardinality <= len / sizeof(uint16_t);
+            break;
+        case VARINT_BITMAP_BITMAP:
+            valid = len >= VARINT_BITMAP_BITMAP_SIZE;
+            break;
+        case VARINT_BITMAP_RUNS: {
+            uint32_t numRuns = 0;
+            valid = len >= sizeof(uint32_t);
+            if (valid) {
+                memcpy(&numRuns, buffer, sizeof(uint32_t));
+                valid = numRuns <= (len - sizeof(uint32_t)) /
+                                       (2 * sizeof(uint16_t));
+            }
+            break;
+        }
+        default:
+            valid = false; /* Unknown container type */
+            break;
+        }
+    }
+    if (!valid) {
+        free(vb);
+        return NULL;
+    }
 
     switch (vb->type) {
     case VARINT_BITMAP_ARRAY:
